@@ -224,4 +224,11 @@ def malformed(body: bytes, asn4: bool, addpath=lambda afi, safi: False, families
                 prefixes(val[3:], addpath(*fam))
             except (ValueError, IndexError):
                 out.append((typ, 'truncated'))
+    # RFC 7606 section 3.d: routes announced (NLRI field or MP_REACH_NLRI) without a well-known mandatory attribute:
+    # treat-as-withdraw.  ORIGIN and AS_PATH always; NEXT_HOP when the NLRI field is used.
+    nlri_field = body[4 + wl + al :]
+    if nlri_field or 14 in seen:
+        for typ in (1, 2) + ((3,) if nlri_field else ()):
+            if typ not in seen:
+                out.append((typ, 'mandatory attribute missing'))
     return out
